@@ -77,6 +77,20 @@ def check(ctx):
             for bs in (1, 2, 5):
                 perm = rng.permutation(n)
                 judge(f"permutation[batch={bs}]", sfit(P, orders, d[perm], f1[perm], bs), base1, {"perm": perm.tolist(), "batch_size": bs})
+            # the same numbers in another memory layout (Fortran order, a moveaxis view): through the constructor and the solver classes
+            dF, fF = np.asfortranarray(d), np.asfortranarray(f1)
+            dV = np.moveaxis(np.ascontiguousarray(np.moveaxis(d, 0, -1)), -1, 0)
+            fV = np.moveaxis(np.ascontiguousarray(np.moveaxis(f1, 0, -1)), -1, 0)
+            judge("layout[fortran]", sfit(P, orders, dF, fF, 100), base1)
+            judge("layout[moveaxis-view]", sfit(P, orders, dV, fV, 3), base1)
+            try:
+                from symfc import Symfc as _S
+                oL = _S(P.atoms, displacements=dV, forces=fF)
+                oL.basis_set = dict(P.basis)
+                oL.solve(orders=list(orders), is_compact_fc=False)
+                judge("layout[constructor]", {m: np.array(oL.force_constants[m]) for m in orders}, base1)
+            except np.linalg.LinAlgError as e_:
+                judge("layout[constructor]", e_, base1)
             judge("duplication[x2]", sfit(P, orders, np.concatenate([d, d]), np.concatenate([f1, f1]), 3), base1)
             if not ctx.quick:
                 judge("duplication[x3]", sfit(P, orders, np.concatenate([d, d, d]), np.concatenate([f1, f1, f1]), 7), base1)
